@@ -206,9 +206,27 @@ def compile_goto(ob, scratch, witness):
     cmd += ['-DREPO_SRC="%s"' % SRC]
     if witness:
         cmd.append("-DWITNESS_BUILD")
-    cmd += [os.path.join(HARN, ob.harness)] + [os.path.join(SRC, f) for f in ob.extra_src]
+    objs = []
+    for ex in ob.extra_src:
+        if isinstance(ex, (tuple, list)):      # (file, [flags]): separately compiled unit with its own flags
+            f, fl = ex
+            obj = os.path.join(scratch, tag + "-" + os.path.basename(f) + ".o")
+            c2 = ["goto-cc", "-std=gnu99", "-c"] + inc_flags(ob, scratch) + BASE_DEFS + list(fl) + [os.path.join(SRC, f), "-o", obj]
+            rc, o, secs, _ = run(c2, 300, 4, cwd=scratch)
+            if rc != 0:
+                return None, o
+            objs.append(obj)
+        else:
+            objs.append(os.path.join(SRC, ex))
+    cmd += [os.path.join(HARN, ob.harness)] + objs
     cmd += ["-o", out]
     rc, o, secs, _ = run(cmd, 300, 4, cwd=scratch)
+    for ob_ in objs:
+        if ob_.endswith(".o"):
+            try:
+                os.unlink(ob_)
+            except OSError:
+                pass
     if rc != 0:
         return None, o
     if ob.remove_bodies:
@@ -325,7 +343,18 @@ def native_replay(ob, in_c, scratch, tag):
     cmd = ["gcc", "-std=gnu99", "-O0", "-g", "-w", "-fsanitize=address,undefined", "-fno-sanitize-recover=undefined"
            ] + inc_flags(ob, scratch) + BASE_DEFS + ob.defines + ['-DREPO_SRC="%s"' % SRC, "-DREPLAY",
            "-DREPLAY_ENTRY=" + ob.entry, os.path.join(d, "replay_inputs.c")]
-    cmd += [os.path.join(SRC, f) for f in ob.extra_src] + ["-o", exe, "-lpthread"]
+    common = ["gcc", "-std=gnu99", "-O0", "-g", "-w", "-fsanitize=address,undefined", "-fno-sanitize-recover=undefined"] + inc_flags(ob, scratch) + BASE_DEFS
+    for ex in ob.extra_src:
+        if isinstance(ex, (tuple, list)):
+            f, fl = ex
+            obj = os.path.join(d, os.path.basename(f) + ".o")
+            rc, o, _, _ = run(common + list(fl) + ["-c", os.path.join(SRC, f), "-o", obj], 300, 8, cwd=d)
+            if rc != 0:
+                return "build-failed", o
+            cmd.append(obj)
+        else:
+            cmd.append(os.path.join(SRC, ex))
+    cmd += ["-o", exe, "-lpthread"]
     rc, o, _, _ = run(cmd, 300, 8, cwd=d)
     if rc != 0:
         return "build-failed", o
